@@ -634,7 +634,8 @@ int main(int argc, char** argv) {
       int sh = 0;
       for (int i = 1; i < nsh; ++i) if (shard_events[i] < shard_events[sh]) sh = i;
       ++idx;
-      Ctx c{files[sh], ++zcount[sh], fixed_time_zone(seconds(off)), 0};
+      // offset 0 is asked of a default-constructed time_zone value (documented to behave as UTC)
+      Ctx c{files[sh], ++zcount[sh], off == 0 ? time_zone() : fixed_time_zone(seconds(off)), 0};
       emit(c, "{\"e\":\"LoadFixed\",\"z\":" + std::to_string(c.z) + ",\"name\":\"fixed\",\"off\":" + std::to_string(off) + ",\"ok\":1}");
       vt::Rng r(seed * 1000003 + (uint64_t)idx);
       int pub = 0;
